@@ -67,7 +67,15 @@ type c13Piece struct {
 func c13Text(max int) string {
 	n := nd.Choice(max + 1)
 	if nd.Thorough() {
-		return nd.String(n)
+		// every ASCII byte, the lone bytes 0x85 and 0xA0 (whitespace as runes, not as bytes of UTF-8
+		// text) and the lead byte 0xC3 (so that "à" = C3 A0 can be spelled). Not 0xC2: whether U+00A0
+		// and U+0085 count as whitespace is not settled by the statement (Go says yes, Ruby no).
+		set := make([]byte, 0, 131)
+		for b := 0; b < 0x80; b++ {
+			set = append(set, byte(b))
+		}
+		set = append(set, 0xa0, 0x85, 0xc3)
+		return nd.StringFrom(n, string(set))
 	}
 	return nd.StringFrom(n, " \na\xa0\x85") // 0xA0 and 0x85 are whitespace as runes but not as bytes of UTF-8 text
 }
@@ -117,11 +125,12 @@ func c13Render(c Config, toks []parser.Token, b map[string]any) (string, error) 
 	return buf.String(), nil
 }
 
+// c13Erase deletes the (ASCII) whitespace bytes; the alphabet cannot spell any other whitespace.
 func c13Erase(s string) string {
 	out := []byte{}
-	for _, r := range s {
-		if !unicode.IsSpace(r) {
-			out = append(out, string(r)...)
+	for i := 0; i < len(s); i++ {
+		if s[i] >= 0x80 || !unicode.IsSpace(rune(s[i])) {
+			out = append(out, s[i])
 		}
 	}
 	return string(out)
